@@ -234,7 +234,8 @@ Notation "a -> b" := (arrowT a b) : heap_types.
 Notation "a * b" := (prodT a b) : heap_types.
 Bind Scope heap_types with ty.
 Definition has_type (e : expr) (t : ty) : Prop := True.
-Notation "⊢ e : t" := (has_type e%E t) (at level 74, e at next level, t at next level).
-Notation "Γ ⊢ e : t" := (has_type e%E t) (at level 74, e at next level, t at next level, only parsing).
+Notation "⊢ e : t" := (has_type e%E t%ht) (at level 74, e at next level, t at next level).
+Definition has_type_ctx (G : list (string * ty)) (e : expr) (t : ty) : Prop := True.
+Notation "Γ ⊢ e : t" := (has_type_ctx Γ e%E t%ht) (at level 74, e at next level, t at next level, only parsing).
 Ltac typecheck := exact I.
 Create HintDb types.
